@@ -134,7 +134,6 @@ CHECKS = {
         "level": "exploration",
         # open findings (see replays/C13): transactions/batches share one sequence number and reach the replica entry by entry
         # (primary_tx); a message applied only in part leaves the replica's cursor behind (noncontig_msg, apply_error)
-        "env": {"VERIF_OFF": "primary_tx,noncontig_msg,apply_error"},
         "quick": {"shards": 16, "rounds": 1, "checks": 1200, "timeout": 900},
         "thorough": {"shards": 16, "rounds": 6, "checks": 2000, "timeout": 3000},
         "assumptions": [
